@@ -97,6 +97,9 @@ pub struct Node {
 pub enum Part {
     Raw(Vec<u8>),
     Child(Node),
+    /// that many payload bytes (zeros) which count for every size and position but are not
+    /// rendered: files larger than 4 GiB are served from a `GapStream`
+    Phantom(u64),
 }
 
 impl Node {
@@ -128,6 +131,7 @@ impl Node {
             .map(|p| match p {
                 Part::Raw(b) => b.len() as u64,
                 Part::Child(n) => n.size(),
+                Part::Phantom(n) => *n,
             })
             .sum::<u64>()
             + self.spare.len() as u64
@@ -150,6 +154,7 @@ impl Node {
             match p {
                 Part::Raw(b) => out.extend_from_slice(b),
                 Part::Child(n) => n.render_into(out),
+                Part::Phantom(_) => {}
             }
         }
         out.extend_from_slice(&self.spare);
